@@ -5,6 +5,7 @@ package c03rpc
 
 import (
 	"encoding/json"
+	"sync"
 	"testing"
 
 	"verifharness/internal/vh"
@@ -17,16 +18,29 @@ func TestDriver(t *testing.T) {
 	if err := vh.ReadJSON("cases.json", &cases); err != nil {
 		t.Fatalf("no paging cases: %v", err)
 	}
+	// worlds are independent (own chains, servers, random streams; events name their world): they run side by side
+	var wg sync.WaitGroup
+	sem := make(chan struct{}, vh.EnvInt("VERIF_PAR", 4))
+	world := func(f func()) {
+		wg.Add(1)
+		go func() {
+			defer wg.Done()
+			sem <- struct{}{}
+			defer func() { <-sem }()
+			f()
+		}()
+	}
 	if vh.EnvInt("VERIF_PAGING", 1) > 0 {
-		pagingWorld(t, res, tr, cases)
+		world(func() { pagingWorld(t, res, tr, cases) })
 	}
 	nb := vh.EnvInt("VERIF_HIST_BLOCKS", 28)
 	for i := 0; i < vh.EnvInt("VERIF_HIST_WORLDS", 2); i++ {
-		histWorld(t, res, tr, i, nb)
+		world(func() { histWorld(t, res, tr, i, nb) })
 	}
 	for i := 0; i < vh.EnvInt("VERIF_FEE_WORLDS", 2); i++ {
-		feeWorld(t, res, tr, i, vh.EnvInt("VERIF_FEE_PHASES", 3), vh.EnvInt("VERIF_FEE_CASES", 8))
+		world(func() { feeWorld(t, res, tr, i, vh.EnvInt("VERIF_FEE_PHASES", 3), vh.EnvInt("VERIF_FEE_CASES", 8)) })
 	}
+	wg.Wait()
 	tr.Close()
 	b, _ := json.Marshal(res.Stats)
 	t.Log(string(b))
